@@ -18,7 +18,7 @@ def circuit_class(name):
 def build_circuit(spec):
     """spec: {"nphys":, "nclbits":, "instrs": [[name, qubits, clbits, params], ...]} -> QuantumCircuit (native gates only)"""
     from qiskit import QuantumCircuit
-    qc = QuantumCircuit(spec["nphys"], max(1, spec["nclbits"]))
+    qc = QuantumCircuit(spec["nphys"], max(1, spec["nclbits"]), name="circ")   # same name for every circuit: a name is not an identity
     for name, qs, cs, ps in spec["instrs"]:
         if name == "rz":
             qc.rz(ps[0], qs[0])
